@@ -315,3 +315,19 @@ META = dict(
     trusted_base=["copy.deepcopy and np.array allocate fresh storage at every level", "json dump/load (bounded only)", "the AST pattern matcher"],
     assumptions=["A-JSON", "A-NP-ALLOC", "IMMUTABLE_PARAMS table (numbers/strings/booleans/None)"],
 )
+
+# write_settings_object_to_file: the object's own save(), once, under the name given
+def _wso_inputs(ex, st):
+    st.env["settings_object"] = sym_obj(ex, st, "Settings", {}, owner="param:settings_object")
+    st.env["fname"] = StrV("<fname>")
+    st.env["__saved"] = Tup(())
+    return []
+
+
+_WSO = Contract(qual="hvsrpy.object_io.write_settings_object_to_file", params=["settings_object", "fname"], make_inputs=_wso_inputs, modifies=[],
+                ghost={"saved_once": FuncV(lambda ex, st, a, k, n_: z3.BoolVal(len(st.env["__saved"]) == 1 and st.env["__saved"][0][0].oid == st.env["settings_object"].oid
+                                                                                 and st.env["__saved"][0][1] is st.env["fname"]), "saved_once")},
+                ensures=["saved_once()"], notes="exactly one save() of the object given, under the file name given")
+_WSO.ghost_state = ("__saved",)
+TASKS.append(FunctionTask(_WSO, registry={"Settings.save": FuncV(lambda ex, st, a, k, n_: (st.env.__setitem__("__saved", Tup(tuple(st.env["__saved"]) + (Tup((a[0], a[1])),))), NONE)[1], "Settings.save")},
+                          label="hvsrpy.object_io.write_settings_object_to_file", clauses=["the writer saves the object it is given"]))
